@@ -49,7 +49,7 @@ func mkCDImage(root string, im cdImg, seed byte) {
 func TestC17(t *testing.T) {
 	r := NewReporter(t)
 	defer r.Done()
-	r.Rule("7 raw sector sizes x {ISO9660, PLAYSTATION, no} signature x image sizes around the 2 MiB / 848 MiB detection window x (start,count) incl. count 0, start != count and ranges crossing EOF; two-image histories on one connection and CLOSEFILE; distinct by (image(s), request sequence)")
+	r.Rule("7 raw sector sizes x {ISO9660, PLAYSTATION, no} signature x image sizes around the 2 MiB / 848 MiB detection window x (start,count) incl. count 0, start != count and ranges crossing EOF; two-image histories on one connection and CLOSEFILE; transfer buffer sizes {1,3,512,1000,1500,2047,2048,2049,4096,unpooled}; distinct by (image(s), request sequence)")
 	w := newWorld(t, "srv/root")
 	defer w.Cleanup()
 	sizes := []int64{0x200000 - 1, 0x200000, 3 << 20, 0x35000000, 0x35000000 + 1}
@@ -109,6 +109,29 @@ func TestC17(t *testing.T) {
 		run(im.name, []Req{mkReq(opOpenFile, "/"+im.name), cdReq(3, 2), rdcReq(100, 50), cdReq(0, 1), cdReq(17, 3)})
 		run(im.name, []Req{mkReq(opOpenFile, "/"+im.name), cdReq(3, 2), rdReq(7, 100), cdReq(5, 2), rdcReq(0, 2048), cdReq(7, 1), cdReq(8, 3), rdReq(24+11*2048, 10), cdReq(11, 1)})
 		run(im.name, []Req{mkReq(opOpenFile, "/"+im.name), mkReq(opOpenFile, "/CLOSEFILE"), cdReq(0, 1)})
+		// other transfer buffer configurations (--buffer-size): sizes that do and do not divide 2048, larger than a
+		// sector, and the unpooled copier
+		if im.size == 0x200000 {
+			for _, bs := range []int64{1, 3, 512, 1000, 1500, 2047, 2048, 2049, 4096, -1} {
+				if !r.Thorough() && im.sig != "iso" && bs != 1000 && bs != -1 {
+					continue
+				}
+				reqs := []Req{mkReq(opOpenFile, "/"+im.name), cdReq(1, 3), rdcReq(100, 50), cdReq(0, 1), cdReq(nsect-1, 2)}
+				m := newModel(w.Root, false)
+				res := runSession(t, SrvOpts{Root: w.Root, BufSize: bs}, m, reqs, Delivery{})
+				r.Transition(int64(len(res.Steps)))
+				r.Eval(1)
+				key := sprintf("%s|bufsize=%d", im.name, bs)
+				r.State(key)
+				r.Nontrivial(key)
+				for _, st := range res.Steps {
+					r.Outcome(st.Class)
+				}
+				if res.Why != "" {
+					r.Violation("C17:bufsize:"+res.WhySig, sprintf("%s with transfer buffer size %d: %s", im.name, bs, res.Why), map[string]any{"image": im.name, "buffer_size": bs, "requests": reqs, "steps": res.Steps})
+				}
+			}
+		}
 		// re-opening images of a different sector size on one connection
 		for j, other := range imgs {
 			if other.size != 0x200000 || other.sector == im.sector || im.size != 0x200000 || (!r.Thorough() && (i+j)%3 != 0) {
